@@ -114,6 +114,8 @@ package cashu
 //@   safety C14 C06
 //@   fresh
 //@   ensures @sum [C14] sum.proof.amount(seq(result), len(result)) == sum.v4(seq(t.TokenProofs), heap("HS.cashu.ProofV4"), len(t.TokenProofs))
+//@   loop 1 invariant 0 <= idx && idx <= len(t.TokenProofs) && sum.proof.amount(seq(proofs), len(proofs)) == sum.v4(seq(t.TokenProofs), heap("HS.cashu.ProofV4"), idx)
+//@   loop 2 invariant 0 <= idx && idx <= len(tokenV4Proof.Proofs) && sum.proof.amount(seq(proofs), len(proofs)) == sum.v4(seq(t.TokenProofs), heap("HS.cashu.ProofV4"), idx1) + sum.pv4(seq(tokenV4Proof.Proofs), idx)
 
 //@ func (TokenV4).Amount
 //@   tags C14
@@ -130,6 +132,9 @@ package cashu
 //@ func NewTokenV4
 //@   tags C14 C08
 //@   safety C14 C06
+//@   loop range(proofsMap) invariant 0 <= it && it <= n && i == it && len(proofsV4) == n
+//@   calls builtin.append asserts @dleq [C14,C08] (local(proofV4, ProofV4).DLEQ != nil ==> includeDLEQ && proof.DLEQ != nil) && (includeDLEQ && proof.DLEQ != nil ==> local(proofV4, ProofV4).DLEQ != nil && bytes(local(proofV4, ProofV4).DLEQ.E) == hexdec(proof.DLEQ.E) && bytes(local(proofV4, ProofV4).DLEQ.S) == hexdec(proof.DLEQ.S) && bytes(local(proofV4, ProofV4).DLEQ.R) == hexdec(proof.DLEQ.R) && len(proof.DLEQ.R) > 0)
+//@   calls builtin.append asserts @fields [C14] local(proofV4, ProofV4).Amount == proof.Amount && local(proofV4, ProofV4).Secret == proof.Secret && local(proofV4, ProofV4).Witness == proof.Witness && hexok(proof.C) && bytes(local(proofV4, ProofV4).C) == hexdec(proof.C)
 
 //@ func AmountSplit
 //@   tags C18 C14
